@@ -115,10 +115,15 @@ Definition judge (c : case18) : list Z :=
   | KPen xo yo gs plac xe w okAdv okW okPath agree allH =>
       let '(mp, mx) := topath xo yo gs in
       let mw := textwidth 0 gs in
-      let tie := negb (list_eqb z2_eqb mp plac && (mx =? xe) && (mw =? w) && okAdv && okW && okPath) in
-      (* the property: for a horizontal run toPath's advance and TextWidth agree *)
+      (* tie: the pen model against the harness' own sums of the advances *)
+      let sums := list_eqb z2_eqb mp plac && (mx =? xe) && (mw =? w) in
+      let tie := negb sums in
+      (* the property: for a horizontal run toPath's advance and TextWidth agree; and (model and sums agreeing) Go's
+         advance / text width are the sums of the advances and Go's path is every glyph outline placed at the sum of the
+         preceding advances plus offsets *)
       let prop := allH && negb agree in
-      [bit tie 32; bit prop 64; 0; Z.of_nat (length gs); 0; bit (negb (xo =? 0)) 64 + bit (negb allH) 128]
+      let prop2 := sums && negb (okAdv && okW && okPath) in
+      [bit tie 32; bit prop 64 + bit prop2 2048; 0; Z.of_nat (length gs); 0; bit (negb (xo =? 0)) 64 + bit (negb allH) 128]
   | KPanic => [0; 128; 0; 0; 0; 0]
   | KBad => [512; 0; 0; 0; 0; 0]
   end.
